@@ -282,7 +282,8 @@ def check_c17(tier: str) -> int:
                 # an intact frame is delivered
                 cur = rig.net.current()
                 if cur is not None:
-                    cur.transport.peer_reset()
+                    # alternately by reset and by an orderly close (end of stream in the middle of a frame)
+                    (cur.transport.peer_reset if ck.evaluations % 2 else cur.transport.peer_eof)()
                     rig.loop.settle()
                     rig.take()
                 if not rig.connect():
